@@ -290,3 +290,13 @@ Theorem C02_source_freshness :
   (forall h date, src_heuristic_freshness h date = heuristic_freshness h date).
 Proof. split; [exact tie_calculate_freshness|split; [exact tie_current_age|exact tie_heuristic_freshness]]. Qed.
 Print Assumptions C02_source_freshness.
+
+(* the validation request — the client's request plus If-None-Match / If-Modified-Since copied from the stored ETag /
+   Last-Modified, each only when present — is built by the withConditionalHeaders of helpers.go on this run
+   (Generated/SrcHeaderProgs.v) *)
+From HC.Generated Require Import SrcHeaderProgs.
+From HC.Proofs Require Import TieHeaderProgs.
+Theorem C02_source_conditional_request :
+  forall q stored, src_with_conditional_headers q stored = with_conditional_headers q stored.
+Proof. exact tie_with_conditional_headers. Qed.
+Print Assumptions C02_source_conditional_request.
